@@ -7,7 +7,7 @@ for d in seeded/*${1:-}*/; do
   n=$(basename "$d")
   c=$(python3 -c "import json;print(json.load(open('$d/meta.json'))['caught_by'][0])")
   git -C /repo status --short | grep -q . && { echo "/repo dirty"; exit 2; }
-  git -C /repo apply "$d/patch.diff" 2>/dev/null || { echo "$n: PATCH DOES NOT APPLY"; continue; }
+  git -C /repo apply "/verif/$d/patch.diff" 2>/dev/null || { echo "$n: PATCH DOES NOT APPLY"; continue; }
   t0=$(date +%s)
   out=$(timeout 1200 ./check $c quick 2>&1); rc=$?
   git -C /repo checkout -- .
